@@ -140,4 +140,39 @@ def Core.fresh (store : Store) (seqNo : Nat) (max1 max2 : Int) : Core :=
     l1 := { space := Facts.atLeastOnceIDSpace, max := normMax max1 },
     l2 := { space := Facts.exactlyOnceIDSpace, max := normMax max2 } }
 
+/-! ### The core as a transition system -/
+
+/-- Everything the client ever does to the core, as operations. Faults of the
+Persistence are arguments, so "for every fault sequence" is "for every list of
+operations". -/
+inductive COp
+  | accept (lvl : Nat) (pk : Nat → Bytes) (saveFails : Bool) (ex : Nat)
+  | submitted (lvl : Nat)
+  | resent (lvl : Nat) (seqNo : Nat)
+  | puback (id : Nat) (delFails : Bool)
+  | pubrec (id : Nat) (saveFails : Bool)
+  | pubcomp (id : Nat) (delFails : Bool)
+  | term
+
+def Core.lo (c : Core) (lvl : Nat) : Nat := if lvl == 1 then c.acked else c.completed
+
+def Core.step (c : Core) : COp → Core
+  | .accept lvl pk f ex => (c.accept lvl pk f ex).1
+  | .submitted lvl => c.markSubmitted lvl
+  | .resent lvl n =>
+    -- `resend` iterates over the unacknowledged sequence numbers only
+    if c.lo lvl ≤ n ∧ n < (c.lv lvl).acceptN then c.setLv lvl ((c.lv lvl).resent n) else c
+  | .puback id f => match c.pubackCheck id with
+    | .ok => (c.puback id f).1
+    | .reset => c
+  | .pubrec id f => match c.pubrecCheck id with
+    | .ok => (c.pubrec id ([UInt8.ofNat (Facts.typePUBREL * 16 + 2), 2] ++ be16 id) f).1
+    | .reset => c
+  | .pubcomp id f => match c.pubcompCheck id with
+    | .ok => (c.pubcomp id f).1
+    | .reset => c
+  | .term => c.term
+
+def Core.run (c : Core) (ops : List COp) : Core := ops.foldl Core.step c
+
 end Model
